@@ -69,13 +69,17 @@ func runC09() {
 	rep.Rule = "random call trees (depth<=3 quick/5 thorough; frames entered by CALL/STATICCALL/DELEGATECALL/CALLCODE, each ending in STOP/REVERT/INVALID, failure caught or propagated; bodies mix SSTORE, LOG0 and precompile calls: approveShares, delegateV2, crossChain(FX,value), transferFromShares failing after its allowance write, delegateV2 failing inside, approveShares failing before the action, write methods through non-CALL opcodes) run on the real EVM at ample gas and on a ladder of gas limits from below intrinsic to above observed usage; non-trivial = a native action started and at least one frame failed; distinct by (tree, gas limit)"
 	w := NewWorld(seed)
 	var items []string
-	for t := -3; t < ntrees; t++ {
+	for t := -5; t < ntrees; t++ {
 		g := NewGen(r, w, thorough)
 		g.rewards = t%8 == 3 // one tree in eight may trigger finding C09-1
 		g.tokenCB = t%4 == 1 // one tree in four may call the hostile token through crossChain
 		g.panicky = t%5 == 2 // one tree in five may run into a keeper panic
 		var root *Node
-		if t == -3 {
+		if t == -5 {
+			root = witnessDeep(g) // innermost of three nested frames fails, try/catch in the middle, precompile calls at every level
+		} else if t == -4 {
+			root = witnessStacked(g) // reverts above successful children whose revisions are still on the stack, precompile calls before / inside / after
+		} else if t == -3 {
 			root = witnessRefusals(g) // batched-transfer fee increase with an ERC-20, executeClaim over a closed and an open IBC channel
 		} else if t == -2 {
 			root = witnessPanic(g) // executeClaim panicking after its first write, failure swallowed by the caller
@@ -732,4 +736,59 @@ func witnessRefusals(g *Gen) *Node {
 	g.slots[0] = []uint64{1}
 	g.nextAddr = 1
 	return root
+}
+
+// ---- fixed shapes aimed at the revision stack of Snapshot/RevertToSnapshot (model: M_FramesRev) ----
+
+type shapeB struct{ g *Gen }
+
+func (b shapeB) frame(addr int, end string, caught bool, body ...*Node) *Node {
+	if addr >= b.g.nextAddr {
+		b.g.nextAddr = addr + 1
+	}
+	return &Node{Kind: NFrame, ID: b.g.id(), CallKind: lib.CALL, Addr: addr, End: end, Caught: caught, Body: body}
+}
+func (b shapeB) pc(k MarkerKind, ctx int, caught bool) *Node {
+	m := &Marker{ID: b.g.id(), Kind: k, Ctx: ctx}
+	if k == MkDelegate || k == MkXChain || k == MkBridgeCall || k == MkIncreaseFee {
+		m.Bit = b.g.nextBit
+		b.g.nextBit++
+	}
+	b.g.w.fill(m)
+	return &Node{Kind: NPCall, ID: m.ID, CallKind: lib.CALL, Caught: caught, M: m}
+}
+func (b shapeB) ss(ctx int, slot, val uint64) *Node {
+	b.g.slots[ctx] = append(b.g.slots[ctx], slot)
+	return &Node{Kind: NSStore, ID: b.g.id(), Slot: slot, Val: val}
+}
+func (b shapeB) lg() *Node { b.g.nextTag++; return &Node{Kind: NLog, ID: b.g.id(), Tag: b.g.nextTag} }
+
+// witnessDeep: A { SSTORE ; approve ; CALL B { delegate ; try CALL C { SSTORE ; LOG ; approve ; CALL D { xchain ; SSTORE ; INVALID } (propagates:
+//   C reverts itself) ; approve' (never reached) } catch ; approve'' ; LOG ; STOP } ; delegate' ; SSTORE ; STOP }
+// D fails three frames down, C dies with it, B catches and goes on: kept = A's and B's effects on both sides of the catch.
+// C's SSTORE/LOG precede its successful precompile call: a revert that went back only to the newest revision on the stack
+// (that call's) instead of C's own would keep them.
+func witnessDeep(g *Gen) *Node {
+	b := shapeB{g}
+	d := b.frame(3, "invalid", false, b.pc(MkXChain, 3, false), b.ss(3, 1, 3))
+	c := b.frame(2, "return", true, b.ss(2, 1, 2), b.lg(), b.pc(MkApprove, 2, false), d, b.pc(MkApprove, 2, false))
+	bb := b.frame(1, "return", false, b.pc(MkDelegate, 1, false), c, b.pc(MkApprove, 1, false), b.lg())
+	return b.frame(0, "return", false, b.ss(0, 1, 1), b.pc(MkApprove, 0, false), bb, b.pc(MkDelegate, 0, false), b.ss(0, 2, 2))
+}
+
+// witnessStacked: A { CALL B { delegate } ; try CALL C { delegate ; CALL B2 { approve ; CALL B3 { xchain } } ; LOG ; REVERT } catch ;
+//   CALL D { bridgeCall } ; try CALL E { CALL F { CALL G { approve } ; delegateFail (caught) } ; SSTORE ; REVERT } catch ; approve ; SSTORE ; STOP }
+// when C and E revert, the revisions of their successfully returned children (B2, B3, F, G and every precompile frame) are still on the
+// state DB's stack above their own; two kept precompile calls (B's, D's) have a discarded one between them.
+func witnessStacked(g *Gen) *Node {
+	b := shapeB{g}
+	b1 := b.frame(1, "return", false, b.pc(MkDelegate, 1, false))
+	b3 := b.frame(4, "return", false, b.pc(MkXChain, 4, false))
+	b2 := b.frame(3, "return", false, b.pc(MkApprove, 3, false), b3)
+	c := b.frame(2, "revert", true, b.pc(MkDelegate, 2, false), b2, b.lg())
+	d := b.frame(5, "return", false, b.pc(MkBridgeCall, 5, false))
+	gg := b.frame(8, "return", false, b.pc(MkApprove, 8, false))
+	f := b.frame(7, "return", false, gg, b.pc(MkDelegateFail, 7, true))
+	e := b.frame(6, "revert", true, f, b.ss(6, 1, 6))
+	return b.frame(0, "return", false, b1, c, d, e, b.pc(MkApprove, 0, false), b.ss(0, 1, 1))
 }
